@@ -271,3 +271,6 @@ def run(ctx):
     n4 = L.check_special_members(ctx, "C18.R4", fb,
                                  r"^babylon::(ConcurrentFixedSwissTable<.*>|ConcurrentTransientHashSet<[^:]*>(::TableNode)?)$")
     ctx.floor("C18.R4", n4, 12, "user-provided move/swap members")
+
+
+SWEEP = ["concurrent/test_transient_hash_table.cpp"]
